@@ -1,5 +1,5 @@
 """C01 -- the client view converges to the device's true property state."""
-from pyvc.runner import Check, TaskSpec, run_tasks
+from pyvc.runner import Check, TaskSpec, run_tasks, PY_FULL
 from contracts import converge as V, driver as D
 from checks import common, c14
 
@@ -12,6 +12,7 @@ def specs(tier):
     for n in (0, 1, 2, 3):
         out.append(TaskSpec("Group.enabled[%d]" % n, "contracts.converge", "task_group_enabled", (n,), replay_kind="converge.history", scenario=True))
     out.append(TaskSpec("Driver.send_message", "contracts.converge", "task_send_message", (), replay_kind="converge.history", scenario=True))
+    out.append(TaskSpec("delivery call sites", "contracts.converge", "task_delivery_sites", (), replay_kind="converge.long_message", python=PY_FULL))
     for kind in ("Text", "Number", "Switch", "Light", "BLOB"):
         for k in ((0, 1, 2) if tier == "quick" else (0, 1, 2, 3)):
             for what in ("def", "set", "del", "def+set"):
@@ -31,7 +32,10 @@ def specs(tier):
 
 
 def run(tier, seed):
-    chk = Check("C01", tier, seed)
+    chk = Check("C01", tier, seed, level="other")
+    chk.explanation = ("contract-based deductive verification like the proof-level checks, but NOT claimed as a proof: two delivery call-site obligations are refuted on the tree under test "
+                       "(known findings F34: the client's control connection keeps the junk threshold, so messages above ~3 kB are lost; F35: the library Client feeds one mirror from two "
+                       "unordered connections), so discharged < obligations by design; every other obligation is discharged; the induction over histories composes cited contracts (DESIGN 4 C01)")
     chk.add_results(run_tasks(specs(tier)))
     for fn in ("Vector.enabled", "Vector.state_"):
         chk.function(D.VEC_FILE, fn)
